@@ -274,6 +274,8 @@ func c14r3(c *Ctx, id string) {
 						var d AV
 						if in := w.writerInputs(pw); in.dirty != nil {
 							d = effectVArg(e, pw, *in.dirty)
+						} else if _, isMode := w.writerModeConst(pw); isMode {
+							d = avBool{w.pwMode[pw]} // a mode of a split writer
 						}
 						if b, ok := d.(avBool); !ok || b.b {
 							return "a library-internal key advances the position with dirty=" + avString(d) + ": checkpoint writes would trigger further checkpoint writes"
